@@ -270,7 +270,7 @@ func isErrReturn(rt *ssa.Return) bool {
 	if idx < 0 {
 		return false
 	}
-	v := rt.Results[idx]
+	v := engine.RetVal(rt, idx)
 	if isNilConst(v) {
 		return false
 	}
